@@ -216,8 +216,19 @@ class Recompile(Contract):
         # read the pre-state symbols (shapes() just created them)
         return []
 
+    # change detection must be an (assumed) INJECTIVE digest of the whole text: md5 as written, or another cryptographic hash
+    DIGESTS = {"md5": MD5HEX, "sha1": z3.Function("SHA1HEX", __import__("pyvc.smt", fromlist=["Bytes"]).Bytes, S),
+               "sha256": z3.Function("SHA256HEX", __import__("pyvc.smt", fromlist=["Bytes"]).Bytes, S)}
+    DIG = None
+
+    def digest(self, text):
+        return (self.DIG if self.DIG is not None else MD5HEX)(UTF8(text))
+
     def hit(self, a, pre):
-        return pre["_checksum"] == MD5HEX(UTF8(a.source_code))
+        c = pre["_checksum"]
+        if not (z3.is_expr(c) and c.sort() == S):
+            return z3.BoolVal(False)
+        return c == self.digest(a.source_code)
 
     def raises(self, a):
         return {}
@@ -268,10 +279,15 @@ class Recompile(Contract):
         switched_here = r1 is not pre["run_experiment"]
         if not self.callee_view and switched_here and self.F_template is None:
             self.F_template = (r1v, src)
-        unchanged = z3.And(c1 == pre["_checksum"], r1v == to_val(pre["run_experiment"]))
+        if not self.callee_view and switched_here and self.DIG is None and z3.is_expr(c1) and c1.sort() == S:
+            for h in self.DIGESTS.values():
+                if c1.eq(h(UTF8(src))):
+                    type(self).DIG = h
+        c_is_str = z3.is_expr(c1) and c1.sort() == S
+        unchanged = z3.And(to_val(c1) == to_val(pre["_checksum"]), r1v == to_val(pre["run_experiment"]))
         fv = self.free_consts(r1v) if switched_here else set()
         foreign = sorted(x for x in fv if x != str(src) and not x.startswith(self.ALLOWED_CONSTS))
-        switched = z3.And(c1 == MD5HEX(UTF8(src)), r1v == self.F(src, a),
+        switched = z3.And((c1 == self.digest(src)) if c_is_str else z3.BoolVal(False), r1v == self.F(src, a),
                           z3.BoolVal(self.callee_view or (switched_here and not foreign)))
         i0 = self.inv(a, pre["_checksum"], to_val(pre["run_experiment"]), self.acc_none, self.acc)
         acc1_none = z3.And(hit, self.acc_none)
@@ -288,8 +304,10 @@ class Recompile(Contract):
         return out
 
     def inv(self, a, checksum, run, accepted_is_none, accepted):
+        if not (z3.is_expr(checksum) and checksum.sort() == S):
+            return z3.BoolVal(False)
         return z3.Or(z3.And(accepted_is_none, checksum == z3.StringVal(""), run == CLASS_DEFAULT_RUN),
-                     z3.And(z3.Not(accepted_is_none), checksum == MD5HEX(UTF8(accepted)), run == self.F(accepted, a)))
+                     z3.And(z3.Not(accepted_is_none), checksum == self.digest(accepted), run == self.F(accepted, a)))
 
     def apply_effects(self, a, p, kind):
         if kind == "return":
@@ -305,7 +323,10 @@ class Recompile(Contract):
         stores = [e for e in p.effects if e[0] == "store-attr"]
         foreign = [e for e in stores if e[1] != a.self.oid and e[4] != "fresh"]
         other_attrs = [e for e in stores if e[1] == a.self.oid and e[2] not in ("_checksum", "run_experiment")]
-        out = [("writes-only-self._checksum,self.run_experiment(instance-local)", z3.BoolVal(not foreign and not other_attrs)),
+        dynamic = [e for e in p.effects if e[0] == "store-attr-dynamic"]
+        shared_ns = [e for e in p.effects if e[0] == "exec-into-shared-namespace"]
+        out = [("writes-only-self._checksum,self.run_experiment(instance-local)", z3.BoolVal(not foreign and not other_attrs and not dynamic)),
+               ("generated-code-is-exec'd-into-a-dict-allocated-in-this-call", z3.BoolVal(not shared_ns)),
                ("no-global-or-class-state", z3.BoolVal(not [e for e in p.effects if e[0] in ("global-object-read", "global-mutable-read", "io", "store-global")])),
                ("deterministic(no havoc)", z3.BoolVal(not p.havoc))]
         if kind == "raise":
@@ -322,6 +343,11 @@ class Recompile(Contract):
         return out
 
     def verify(self, mutate=None, tag=""):
+        # pass 1 discovers, from the switching path of the real body, the text->function map and the digest in use;
+        # pass 2 generates the obligations with them fixed
+        type(self).DIG = None
+        self.F_template = None
+        Contract.verify(self, mutate, tag)
         obls = Contract.verify(self, mutate, tag)
         # C06 clause: a text the parser rejects with None never yields an evaluator (ParseError), on the miss path
         return obls + self.rejects_none(mutate, tag)
@@ -345,8 +371,8 @@ class Recompile(Contract):
             return ("C11",)
         if "deterministic" in name or "no-global" in name:
             return ("C01", "C11", "C17")
-        if "writes-only" in name:
-            return ("C11", "C17", "C01")
+        if "writes-only" in name or "exec'd-into" in name:
+            return ("C11", "C17", "C01", "C09", "C14")
         return ("C11",)
 
     def model_vars(self, a):
@@ -375,7 +401,7 @@ class EvaluatorInit(Contract):
         # the fresh instance satisfies I with accepted=None; after __init__, I holds with accepted = source_code
         # (under the assumption MD5HEX(utf8(src)) != "" -- the digest has 32 characters)
         return [("establishes-invariant(accepted=source_code)",
-                 z3.Implies(z3.Length(MD5HEX(UTF8(src))) == 32, z3.And(c1 == MD5HEX(UTF8(src)), r1 == COMPILED(src))))]
+                 z3.Implies(z3.Length(MD5HEX(UTF8(src))) == 32, z3.And(to_val(c1) == to_val((Recompile.DIG if Recompile.DIG is not None else MD5HEX)(UTF8(src))), r1 == COMPILED(src))))]
 
     def frame(self, a, p, kind, pre):
         stores = [e for e in p.effects if e[0] == "store-attr"]
